@@ -12,9 +12,11 @@ package main
 
 import (
 	"context"
+	"encoding/json"
 	"errors"
 	"flag"
 	"fmt"
+	"os"
 	"strings"
 	"syscall"
 
@@ -622,6 +624,11 @@ func (i *inst) contents(oldLen uint64) {
 }
 
 func history(c config, deltas []uint32, r interface{ Intn(int) int }) {
+	// (a fault inside generated machine code kills this process without a usable Go trace: the history being run is
+	// announced first, so that the check can name it as the failing input)
+	if cj, err := json.Marshal(map[string]any{"config": c, "grow_deltas": deltas}); err == nil {
+		fmt.Fprintf(os.Stderr, "HISTORY %s\n", cj)
+	}
 	i := newInst(c)
 	rep.Case(fmt.Sprintf("cfg/%d/%s/%d/%v/%v/%v/%s/%v", c.Min, c.maxStr(), c.Limit, c.CFM, c.Alloc, c.Shared, c.Engine, deltas))
 	if i == nil {
@@ -704,6 +711,15 @@ func main() {
 		for _, alloc := range []bool{false, true} {
 			c := config{Min: 1, Max: u(4), Limit: 65536, Alloc: alloc, Shared: true, Engine: e}
 			history(c, genDeltas(r, 1, u(4), 65536), r)
+			// the edges of a shared memory's limits: empty at first (its buffer exists, its length is 0), min == max,
+			// and a limit below the declared maximum
+			for _, sl := range []struct {
+				min, max, limit uint32
+			}{{0, 2, 65536}, {0, 1, 65536}, {0, 0, 65536}, {2, 2, 65536}, {0, 3, 2}, {1, 3, 2}} {
+				c := config{Min: sl.min, Max: u(sl.max), Limit: sl.limit, Alloc: alloc, Shared: true, Engine: e}
+				history(c, []uint32{1, 0, 1, 1}, r)
+				history(c, genDeltas(r, sl.min, u(sl.max), sl.limit), r)
+			}
 		}
 		// the 4 GiB boundary, sparse allocator only (virtual memory)
 		for _, l := range big {
